@@ -318,8 +318,15 @@ func (in *Instance) InitGenesis(g Genesis) {
 			panic(err)
 		}
 	}
-	oraclekeeper.InitGenesis(ctx, in.Oracle, g.Oracle)
-	mhubkeeper.InitGenesis(ctx, in.Hub, g.Hub)
+	func() {
+		defer func() {
+			if r := recover(); r != nil {
+				panic(GenesisPanic{Value: r, Stack: string(debug.Stack())})
+			}
+		}()
+		oraclekeeper.InitGenesis(ctx, in.Oracle, g.Oracle)
+		mhubkeeper.InitGenesis(ctx, in.Hub, g.Hub)
+	}()
 	in.Events = nil
 	if in.GenesisClosed {
 		return
@@ -328,6 +335,14 @@ func (in *Instance) InitGenesis(g Genesis) {
 		panic(fmt.Sprintf("BeginBlock(1) after genesis panicked: %v", p.Value))
 	}
 }
+
+// GenesisPanic is raised when the modules' InitGenesis panics on the scenario's genesis.
+type GenesisPanic struct {
+	Value interface{}
+	Stack string
+}
+
+func (g GenesisPanic) Error() string { return fmt.Sprintf("InitGenesis panicked: %v", g.Value) }
 
 // RestoreClosed loads a snapshot taken at a block boundary (no open block).
 func (in *Instance) RestoreClosed(s *Snapshot) {
